@@ -1,0 +1,120 @@
+//go:build verif
+
+package remote
+
+import (
+	"context"
+	"crypto/tls"
+	"net"
+	"time"
+
+	"github.com/foxcpp/go-mtasts"
+	"github.com/foxcpp/maddy/framework/dns"
+	"github.com/foxcpp/maddy/framework/log"
+	"github.com/foxcpp/maddy/framework/module"
+	"github.com/foxcpp/maddy/internal/limits"
+	"github.com/foxcpp/maddy/internal/smtpconn/pool"
+)
+
+// VerifRemoteConfig carries what a verification harness needs to construct a
+// Target without the configuration parser: every collaborator that Init would
+// create (resolver, dialer, DNSSEC-aware resolver, policies, pool, limits) is
+// injected. No existing identifier of the package is changed.
+type VerifRemoteConfig struct {
+	Hostname    string
+	Resolver    dns.Resolver
+	Dialer      func(ctx context.Context, network, addr string) (net.Conn, error)
+	ExtResolver *dns.ExtResolver // nil: no DNSSEC-aware resolver
+	TLSConfig   *tls.Config      // nil: STARTTLS is never attempted
+
+	Policies          []module.MXAuthPolicy // in application order
+	Limits            *limits.Group         // nil: no limits
+	AllowSecOverride  bool                  // requiretls_override
+	RelaxedREQUIRETLS bool                  // relaxed_requiretls
+
+	Pool           pool.Config
+	ConnReuseLimit int
+
+	ConnectTimeout    time.Duration
+	CommandTimeout    time.Duration
+	SubmissionTimeout time.Duration
+
+	Log log.Logger
+}
+
+// VerifRemoteNewTarget builds a Target the way New + Init do after
+// configuration processing.
+func VerifRemoteNewTarget(c VerifRemoteConfig) *Target {
+	lim := c.Limits
+	if lim == nil {
+		lim = &limits.Group{}
+	}
+	return &Target{
+		name:              "remote",
+		hostname:          c.Hostname,
+		resolver:          c.Resolver,
+		dialer:            c.Dialer,
+		extResolver:       c.ExtResolver,
+		tlsConfig:         c.TLSConfig,
+		policies:          c.Policies,
+		limits:            lim,
+		allowSecOverride:  c.AllowSecOverride,
+		relaxedREQUIRETLS: c.RelaxedREQUIRETLS,
+		pool:              pool.New(c.Pool),
+		connReuseLimit:    c.ConnReuseLimit,
+		connectTimeout:    c.ConnectTimeout,
+		commandTimeout:    c.CommandTimeout,
+		submissionTimeout: c.SubmissionTimeout,
+		Log:               c.Log,
+	}
+}
+
+// VerifRemoteExtResolver returns a DNSSEC-aware resolver that talks to the
+// given server (host, port) instead of the one in /etc/resolv.conf.
+func VerifRemoteExtResolver(host, port string) (*dns.ExtResolver, error) {
+	r, err := dns.NewExtResolver()
+	if err != nil {
+		return nil, err
+	}
+	r.Cfg.Servers = []string{host}
+	r.Cfg.Port = port
+	return r, nil
+}
+
+// VerifRemoteMTASTSPolicy is mx_auth.mtasts with the policy fetch replaced.
+func VerifRemoteMTASTSPolicy(get func(context.Context, string) (*mtasts.Policy, error), l log.Logger) module.MXAuthPolicy {
+	return &mtastsPolicy{mtastsGet: get, log: l, instName: "verif"}
+}
+
+// VerifRemoteDANEPolicy is mx_auth.dane using the given resolver.
+func VerifRemoteDANEPolicy(ext *dns.ExtResolver, l log.Logger) module.MXAuthPolicy {
+	return &danePolicy{extResolver: ext, log: l, instName: "verif"}
+}
+
+// VerifRemoteFuture is the waitable result of an asynchronous policy lookup.
+type VerifRemoteFuture interface {
+	GetContext(ctx context.Context) (interface{}, error)
+}
+
+// VerifRemoteDANEFuture returns the future that the delivery object p (of
+// mx_auth.dane) currently holds for its TLSA lookup, nil if p is not a DANE
+// delivery object or no lookup was started. It lets a harness observe, and so
+// decide without sleeping, the order in which concurrent lookups complete.
+func VerifRemoteDANEFuture(p module.DeliveryMXAuthPolicy) VerifRemoteFuture {
+	d, ok := p.(*daneDelivery)
+	if !ok || d.tlsaFut == nil {
+		return nil
+	}
+	return d.tlsaFut
+}
+
+// VerifRemoteDNSSECPolicy is mx_auth.dnssec.
+func VerifRemoteDNSSECPolicy() module.MXAuthPolicy { return &dnssecPolicy{instName: "verif"} }
+
+// VerifRemoteLocalPolicy is mx_auth.local_policy with the given minimum levels.
+func VerifRemoteLocalPolicy(minTLS module.TLSLevel, minMX module.MXLevel) module.MXAuthPolicy {
+	return &localPolicy{instName: "verif", minTLSLevel: minTLS, minMXLevel: minMX}
+}
+
+// VerifRemotePolicyOrder is the application order PolicyGroup.Init establishes.
+var VerifRemotePolicyOrder = []string{"mtasts", "sts_preload", "dane", "dnssec", "local_policy"}
